@@ -71,10 +71,13 @@ pub struct Cfg {
     pub primal: Option<(isize, Vec<Decision>)>,
     /// online monitors to enable (bit i = property C<i>)
     pub monitors: u32,
+    /// when the first call to maximize() was cut off, call it a second time on the same solver (the cutoff keeps answering
+    /// 'stop'): the outcome then describes the state after the second call, `first_call` what the first one returned
+    pub second_call: bool,
 }
 impl Cfg {
     pub fn seq(dd: DdKind, cache: bool, fringe: FringeKind, width: WidthKind) -> Cfg {
-        Cfg { dd, cache, fringe, width, par: None, cutoff_k: 0, primal: None, monitors: 0 }
+        Cfg { dd, cache, fringe, width, par: None, cutoff_k: 0, primal: None, monitors: 0, second_call: false }
     }
     pub fn json(&self) -> J {
         let mut j = J::obj()
@@ -88,6 +91,7 @@ impl Cfg {
                 WidthKind::DivBy(k, w) => J::Arr(vec![J::s("divby"), J::i(k), J::i(w)]),
             })
             .set("cutoff_k", J::i(self.cutoff_k));
+        if self.second_call { j = j.set("second_call", J::Bool(true)); }
         if let Some((v, sol)) = &self.primal { j = j.set("primal", J::Arr(vec![J::isz(*v), path_json(sol)])); }
         if let Some(p) = &self.par {
             let mut pj = J::obj().set("n0", J::i(p.n0)).set("n1", p.n1.map_or(J::Null, J::i));
@@ -141,6 +145,7 @@ impl Cfg {
             cutoff_k: j.geti("cutoff_k").unwrap_or(0) as u64,
             primal: j.get("primal").and_then(|p| p.as_arr()).map(|a| (a[0].as_i64().unwrap_or(0) as isize, path_from_json(&a[1]))),
             monitors: 0,
+            second_call: j.getb("second_call").unwrap_or(false),
         }
     }
 }
@@ -207,6 +212,8 @@ pub struct Outcome {
     pub dom_queries: u64,
     pub dom_pruned: u64,
     pub wall: Duration,
+    /// (is_exact, value, lb, ub) of the first call when a second call to maximize() was made
+    pub first_call: Option<(bool, Option<isize>, isize, isize)>,
 }
 impl Outcome {
     pub fn counter(&self, k: &str) -> u64 { self.counters.iter().find(|(n, _)| **n == k).map_or(0, |(_, v)| *v) }
@@ -221,6 +228,7 @@ impl Outcome {
             .set("explored", J::i(self.explored)).set("cutoff_polls", J::i(self.polls)).set("cutoff_fired", J::Bool(self.cutoff_fired))
             .set("panics", J::Arr(self.panics.iter().map(|p| p.json()).collect()))
             .set("livelock", self.livelock.clone().map_or(J::Null, J::s))
+            .set("first_call", self.first_call.map_or(J::Null, |(e, v, lb, ub)| J::obj().set("is_exact", J::Bool(e)).set("best_value", v.map_or(J::Null, J::isz)).set("best_lower_bound", J::isz(lb)).set("best_upper_bound", J::isz(ub))))
     }
 }
 
@@ -337,7 +345,13 @@ pub fn run_solver<F: Fam>(inst: &Arc<F>, cfg: &Cfg) -> Outcome {
         ($d:ty, $c:ty) => {{
             let mut solver = SequentialSolver::<F::S, MonDD<$d>, MonCache<$c>>::custom(inst.as_ref(), &relax, &rank, &width, dom, &cutoff, &mut fringe);
             if let Some((v, sol)) = &cfg.primal { solver.set_primal(*v, sol.clone()); }
-            let res = catch_unwind(AssertUnwindSafe(|| solver.maximize()));
+            let mut res = catch_unwind(AssertUnwindSafe(|| solver.maximize()));
+            if cfg.second_call && cutoff.fired.load(AO::SeqCst) {
+                if let Ok(c) = &res {
+                    out.first_call = Some((c.is_exact, c.best_value, solver.best_lower_bound(), solver.best_upper_bound()));
+                    res = catch_unwind(AssertUnwindSafe(|| solver.maximize()));
+                }
+            }
             collect!(solver, res);
         }};
     }
@@ -347,7 +361,7 @@ pub fn run_solver<F: Fam>(inst: &Arc<F>, cfg: &Cfg) -> Outcome {
             let mut solver = ParallelSolver::<F::S, MonDD<$d>, MonCache<$c>>::custom(inst.as_ref(), &relax, &rank, &width, dom, &cutoff, &mut fringe, p.n0);
             if let Some(n1) = p.n1 { solver = solver.with_nb_threads(n1); }
             if let Some((v, sol)) = &cfg.primal { solver.set_primal(*v, sol.clone()); }
-            let res = match &p.mode {
+            let mut res = match &p.mode {
                 ParMode::Sched { strategy, budget, poll_yields, cache_yields } => {
                     let sched = Sched::new(workers, strategy.clone(), *budget, *poll_yields, *cache_yields, abort.clone());
                     sched.set_on_deadlock(Box::new(|rep: &SchedReport| fire_deadlock(rep.deadlock.as_deref().unwrap_or("deadlock"), Some(rep))));
@@ -364,6 +378,13 @@ pub fn run_solver<F: Fam>(inst: &Arc<F>, cfg: &Cfg) -> Outcome {
                 }
                 ParMode::Free => with_watchdog(|| catch_unwind(AssertUnwindSafe(|| solver.maximize()))),
             };
+            // second call: free running (the controlled schedule ended with the first call)
+            if cfg.second_call && cutoff.fired.load(AO::SeqCst) && out.sched.as_ref().map_or(true, |r| r.deadlock.is_none() && r.crashed.is_empty()) {
+                if let Ok(c) = &res {
+                    out.first_call = Some((c.is_exact, c.best_value, solver.best_lower_bound(), solver.best_upper_bound()));
+                    res = with_watchdog(|| catch_unwind(AssertUnwindSafe(|| solver.maximize())));
+                }
+            }
             collect!(solver, res);
         }};
     }
